@@ -150,6 +150,42 @@ def readd_opacities(cfg, mode):
                                               interpolation_mode=mode))
 
 
+def install_ktables(cfg, dirpath):
+    """Correlated-k mode: one pickle k-table per absorbing molecule on the
+    scratch store (the chemistry learns the active gases from the files in
+    ktable_path), on the configuration's native grid."""
+    import os
+    import pickle
+    from sim.kernel import H
+    from taurex.cache import GlobalCache
+    from taurex.cache.ktablecache import KTableCache
+    os.makedirs(dirpath, exist_ok=True)
+    oc = cfg['opac']
+    lo, hi = oc['wn']
+    n = oc['ngrid']
+    wn = np.logspace(np.log10(lo), np.log10(hi), n)
+    tgrid = np.linspace(200.0, 3200.0, oc.get('nT', 4))
+    pgrid = np.logspace(-2, 7, oc.get('nP', 4))
+    ng = oc.get('ngauss_k', 3)
+    rs0 = np.random.RandomState(H(oc['seed'], 'kweights') % 2**32)
+    w = rs0.uniform(0.2, 1.0, ng)
+    w = w / w.sum()
+    for m in cfg['molecules']:
+        if m.get('inactive') or m['name'] in ('H', 'e-'):
+            continue
+        rs = np.random.RandomState(H(oc['seed'], 'ktab', m['name']) % 2**32)
+        k = 10 ** rs.uniform(oc['logmag'][0], oc['logmag'][1],
+                             size=(len(pgrid), len(tgrid), n, ng))
+        d = {'name': m['name'], 'bin_centers': wn, 'ngauss': ng, 't': tgrid,
+             'p': pgrid / 1e5, 'kcoeff': k, 'weights': w}
+        with open(os.path.join(dirpath, '%s.R100.ktable.pickle' % m['name']),
+                  'wb') as f:
+            pickle.dump(d, f)
+    GlobalCache()['ktable_path'] = dirpath
+    GlobalCache()['opacity_method'] = 'ktables'
+    KTableCache().clear_cache()
+
+
 def make_contribution(name, cfg):
     from taurex import contributions as C
     if name == 'Absorption':
